@@ -66,6 +66,7 @@ type cfg struct {
 	ConflictBias  int
 	InstallBias   int
 	StaleBias     int
+	Epoch0        int
 	RecsPerCmdMax int
 }
 
@@ -304,6 +305,9 @@ type opResult struct {
 	exactRetry  bool
 	conflicting bool
 	firstAttempt bool // first submission of this (command, content variant) anywhere
+	// heldAcked: an exact retry of a command acknowledged with this content, invoked
+	// on an owner whose durable log held the acknowledged range at that moment
+	heldAcked bool
 }
 
 type chanState struct {
@@ -562,6 +566,20 @@ func (q *qworld) view(n *simNode, cs *chanState) replicaView {
 
 func (q *qworld) holds(v replicaView, seq uint64, id ch.EntryIdentity) bool {
 	return v.err == nil && seq >= 1 && seq <= v.leo && int(seq) <= len(v.ids) && v.ids[seq-1] == id
+}
+
+// holdsCommand: v holds every acknowledged sequence of cmd with the acknowledged identity.
+func (q *qworld) holdsCommand(v replicaView, cs *chanState, cmd *command) bool {
+	if !cmd.acked {
+		return false
+	}
+	for seq := cmd.first; seq <= cmd.last; seq++ {
+		le, ok := cs.ledger[seq]
+		if !ok || !q.holds(v, seq, le.identity) {
+			return false
+		}
+	}
+	return true
 }
 
 func sortedNodeIDs(m map[ch.NodeID]bool) []ch.NodeID {
